@@ -52,9 +52,11 @@ import (
 //	    transactions of 5 random queries of those kinds.  Recorded: the baseline, the first 2 read transactions of every reader and
 //	    (up to 3 per reader) every read transaction with an answer that differs from the baseline.  Output format as for mv; the
 //	    verdict is the Lean driver's: every recorded answer = model on the tagged version.
+//	          round 14: C<k><aa> / D<k><aa><xx> cursor walks and re-walks after Seek, see c18_cursor.go
+//	cw <seed> <event> ...   one goroutine plays a script of writer and reader events, see c18_cursor.go
 //	race <scenario> <goroutines> <iters>       concurrent use of the helpers; prints "done" (or "wrong:<what>");
 //	    the interesting output is the Go race detector's report when the harness is built with -race
-//	    scenarios: parse getsymbol errors query extsym emptyfilter mapsym debugparse argslice sharedquery
+//	    scenarios: parse getsymbol errors query extsym emptyfilter mapsym debugparse argslice cursorwalk pubsym sharedquery
 func init() {
 	register("c18", &propHarness{gen: c18Gen, exec: c18Exec})
 	logrus.SetLevel(logrus.PanicLevel)
@@ -159,6 +161,9 @@ type c18Env struct {
 	sharedVals [][]string
 	even       boltz.EntitySymbol // externally computed: id a<n> -> n even
 	ext        boltz.EntitySymbol // externally computed: id a<n> -> nil if n%4 == 3, else "x<n%3>"
+	// round 14: `tags` is a PUBLIC map symbol, `attrs` is not; what the validation APIs say (serially) about the fixed names
+	publicCount int
+	publicFixed map[string]bool
 }
 
 // the pristine contents of the shared values slices (= sharedVals in C18/Store.lean): not ascending, a duplicate, single, empty
@@ -236,6 +241,12 @@ func c18Open() (*c18Env, error) {
 	e.members = e.groups.AddFkSetSymbol("members", e.things)
 
 	e.links = e.things.AddLinkCollection(symGroups, e.members)
+	e.things.MakeSymbolPublic("tags")
+	e.publicCount = len(e.things.GetPublicSymbols())
+	e.publicFixed = map[string]bool{}
+	for _, n := range []string{"id", "name", "rank", "roles", "groups", "tags", "attrs", "even", "nosuch", "tags.site.name", "attrs.site.name"} {
+		e.publicFixed[n] = e.things.IsPublicSymbol(n)
+	}
 	e.groups.AddLinkCollection(e.members, symGroups)
 
 	err = db.Update(nil, func(ctx boltz.MutateContext) error {
@@ -394,6 +405,8 @@ func (e *c18Env) observe(tx *bbolt.Tx, q string) string {
 		return query(c18FreshSpelling(arg))
 	case "O":
 		return e.c18SortFieldsTwice(arg)
+	case "C", "D":
+		return e.observeCursor(tx, kind, arg)
 	case "FA", "FO", "JA", "JO":
 		// a read-only set-index lookup with a values slice other read transactions are using too; the first number of the
 		// answer says whether the caller's slice still holds what it held (post-condition of a read API)
@@ -528,7 +541,7 @@ func (e *c18Env) observe(tx *bbolt.Tx, q string) string {
 	return "bad-q"
 }
 
-var c18QKinds = []string{"O", "U", "U", "FA", "FO", "JA", "JO", "N", "K", "R", "G", "H", "T", "iN", "iR", "lG", "lM", "E", "A", "P", "Q", "X", "Z", "Y", "V", "W", "M", "M", "I"}
+var c18QKinds = []string{"C", "C", "D", "D", "O", "U", "U", "FA", "FO", "JA", "JO", "N", "K", "R", "G", "H", "T", "iN", "iR", "lG", "lM", "E", "A", "P", "Q", "X", "Z", "Y", "V", "W", "M", "M", "I"}
 
 var c18MvIds = []int{0, 1, 2, 3, 4, 5}
 
@@ -584,6 +597,10 @@ func c18Args(kind string, ids []int) []int {
 		return c18Range(0, len(c18SpellTemplates)-1)
 	case "O":
 		return c18Range(1, 8)
+	case "C":
+		return c18CursorArgs(ids)
+	case "D":
+		return c18SeekArgs(ids)
 	case "FA", "FO", "JA", "JO":
 		return c18Range(0, len(c18SharedVals)-1)
 	case "M":
@@ -977,9 +994,17 @@ func c18Race(scenario string, goroutines, iters int) string {
 	}
 	// serial answers of the queries the read-only scenarios use (data is fixed: no writer in those scenarios)
 	extExpected := map[string]string{}
-	if scenario == "extsym" || scenario == "emptyfilter" || scenario == "mapsym" || scenario == "argslice" {
+	if scenario == "cursorwalk" {
+		// the pooled objects of a scan change hands when a goroutine yields between a Put and the next Get on few Ps
+		prev := runtime.GOMAXPROCS(2)
+		defer runtime.GOMAXPROCS(prev)
+	}
+	if scenario == "extsym" || scenario == "emptyfilter" || scenario == "mapsym" || scenario == "argslice" || scenario == "cursorwalk" {
 		_ = e.db.View(func(tx *bbolt.Tx) error {
-			for _, k := range []string{"X", "Y", "Z", "P", "A", "M", "FA", "FO", "JA", "JO"} {
+			for _, k := range []string{"X", "Y", "Z", "P", "A", "M", "FA", "FO", "JA", "JO", "C", "D", "K"} {
+				if (scenario == "cursorwalk") != (k == "C" || k == "D" || k == "K") {
+					continue
+				}
 				for _, a := range c18Args(k, c18MvIds) {
 					// P / A answers computed from a query that is never paged by anybody: rank >= 0 matches every row
 					q := k + strconv.Itoa(a)
@@ -1095,6 +1120,28 @@ func c18Race(scenario string, goroutines, iters int) string {
 						}
 						return nil
 					})
+				case "cursorwalk":
+					// cursor-style readers: walk to the end, yield, seek, walk again - next to plain scans of other read transactions
+					_ = e.db.View(func(tx *bbolt.Tx) error {
+						var q string
+						switch (g + i) % 3 {
+						case 0:
+							q = "K" + strconv.Itoa(i%6)
+						case 1:
+							q = "C" + strconv.Itoa(pick(r, c18CursorArgs(c18MvIds)))
+						default:
+							q = "D" + strconv.Itoa(pick(r, c18SeekArgs(c18MvIds)))
+						}
+						if a := e.observe(tx, q); a != extExpected[q] {
+							wrong.Store("cursorwalk:" + q + "=" + a + "_serial:" + extExpected[q])
+						}
+						return nil
+					})
+					runtime.Gosched()
+				case "pubsym":
+					if w := e.pubsymIteration(g, i); w != "" {
+						wrong.Store(w)
+					}
 				case "argslice":
 					// set-index lookups from many read transactions with the same values slices
 					_ = e.db.View(func(tx *bbolt.Tx) error {
@@ -1162,6 +1209,8 @@ func c18Exec(line string) string {
 		return c18Cr(f)
 	case "sq":
 		return c18Sq(f)
+	case "cw":
+		return c18Cw(f)
 	case "race":
 		g, _ := strconv.Atoi(f[2])
 		n, _ := strconv.Atoi(f[3])
@@ -1206,7 +1255,7 @@ func c18GenTx(r *rng, gen []int) string {
 
 // the query kinds the readers of one cr case concentrate on (collisions need the same symbol / object at the same moment)
 var c18Focus = [][]string{
-	{"O", "T", "K"}, {"U"}, {"U", "K", "N"}, {"JA", "FA"}, {"JA", "JO", "FA", "FO", "iR"}, {"M"}, {"M", "I", "K"}, {"X", "Z"}, {"X", "Y", "V"}, {"A", "P"}, {"A", "P", "Q", "K"}, {"Y", "W", "Z"}, {"R", "H", "G"}, {"T", "K", "Q"}, {"N", "iN", "E", "lG", "lM", "iR"},
+	{"C", "D", "K"}, {"D"}, {"O", "T", "K"}, {"U"}, {"U", "K", "N"}, {"JA", "FA"}, {"JA", "JO", "FA", "FO", "iR"}, {"M"}, {"M", "I", "K"}, {"X", "Z"}, {"X", "Y", "V"}, {"A", "P"}, {"A", "P", "Q", "K"}, {"Y", "W", "Z"}, {"R", "H", "G"}, {"T", "K", "Q"}, {"N", "iN", "E", "lG", "lM", "iR"},
 }
 
 func c18GenCr(r *rng, focus []string, iters int) string {
@@ -1285,11 +1334,18 @@ func c18Gen(tier string, seed uint64, out *bufio.Writer) {
 	for i := 0; i < nsq; i++ {
 		fmt.Fprintln(out, c18GenSq(r, sqRounds))
 	}
+	ncw, cwLen := 40, 30
+	if tier == "thorough" {
+		ncw, cwLen = 400, 45
+	}
+	for i := 0; i < ncw; i++ {
+		fmt.Fprintln(out, c18GenCw(r, cwLen+r.intn(20)))
+	}
 	it := 300
 	if tier == "thorough" {
 		it = 3000
 	}
-	for _, sc := range []string{"parse", "getsymbol", "errors", "query", "extsym", "emptyfilter", "mapsym", "debugparse", "argslice"} {
+	for _, sc := range []string{"parse", "getsymbol", "errors", "query", "extsym", "emptyfilter", "mapsym", "debugparse", "argslice", "cursorwalk", "pubsym"} {
 		fmt.Fprintf(out, "race %s %d %d\n", sc, 6, it)
 	}
 }
